@@ -45,8 +45,9 @@ def add_records(rep, recs, clauses, how="counter-model (symbolic; not concretise
     n = 0
     for r in recs:
         cl = r.get("clause") or r.get("kind")
-        if clauses is not None and cl not in clauses:
-            continue
+        structural = r["status"] != "unsat" and (cl in ("cover", "supported") or r["name"].endswith("/supported"))
+        if clauses is not None and cl not in clauses and not structural:
+            continue  # (a function that could not be analysed at all is reported whatever clauses were asked for)
         n += 1
         rep.add_vc(r["name"], r["status"], r.get("function"), cl, r.get("backend"), r.get("time_s", 0),
                    detail={"trail": r.get("trail"), "goal": r.get("goal"), "reason": r.get("reason")})
@@ -242,4 +243,7 @@ def lineno_parts(rep, root, repo, tier, seed):
     cases = L.cli_cases(repo)
     outs = L.run_real(cases, root, workers=8)
     parts.append(battery(rep, "cli-marks", cases, outs, L.judge_cli, {"lineno"}, "mpilot/cli/mpilot.py::main"))
+    cases = L.cmdline_cases()
+    outs = L.run_real(cases, root, workers=8)
+    parts.append(battery(rep, "command-lines", cases, outs, L.judge_cmdline, {"lineno"}, "mpilot/program.py::Program.from_source+run"))
     return parts
